@@ -12,77 +12,71 @@ Notation rq := (Inb.rq reqs).
 Notation exists_b := (Inb.exists_b reqs).
 Notation step := (Inb.step fixed reqs).
 
-Definition pcof (s : state) (i : nat) : pc := a_pc (act s i).
-Definition refof (s : state) (i : nat) : option nat := a_ref (act s i).
 
-Definition in_tbl_pc (p : pc) : bool :=
-  match p with PWork | PDelete | PFDelete => true | _ => false end.
-
-Definition leader_ok (s : state) (i : nat) : Prop :=
-  match pcof s i with
-  | PStart | PY1 | PWait => False
-  | PWork | PDelete | PFDelete =>
-    tbl s (rkey (rq i)) = Some i /\ e_done (ent s i) = false /\ e_data (ent s i) = None /\ e_err (ent s i) = None
-  | PHasF | PCopy | PFErr =>
-    e_done (ent s i) = false /\ e_data (ent s i) = None /\ e_err (ent s i) = None
-  | PClose => e_done (ent s i) = false /\ e_err (ent s i) = None
-  | PFClose => e_done (ent s i) = false /\ e_data (ent s i) = None
-  | PDone => e_done (ent s i) = true
-  end.
-
-Definition foll_pc (p : pc) : bool :=
-  match p with PY1 | PWait | PDone => true | _ => false end.
-Definition noref_pc (p : pc) : bool :=
-  match p with PStart | PWork | PDone => true | _ => false end.
-Definition post_pc (p : pc) : bool :=
-  match p with PDelete | PHasF | PCopy | PClose => true | _ => false end.
-Definition ferr_pc (p : pc) : bool :=
-  match p with PFDelete | PFErr | PFClose => true | _ => false end.
-
-Definition out_ok (s : state) (i : nat) (o : outcome) : Prop :=
-  match o with
-  | OPanic => False
-  | OWrote k d None =>
-    d = body (rq i) k /\ (k = KCan -> a_cancel (act s i) = true) /\ a_ans (act s i) = Some (ans_of_kind k)
-  | OWrote k d (Some j) =>
-    j <> i /\ refof s i = Some j /\ e_data (ent s j) = Some (k, d) /\ pcof s i = PDone
-  | OErr (ECtx a) => a = i /\ a_cancel (act s i) = true
-  | OErr (EUp a) =>
-    (a = i /\ a_ans (act s i) = Some AErrUp) \/
-    (a <> i /\ refof s i = Some a /\ e_err (ent s a) = Some (EUp a) /\ pcof s i = PDone)
-  end.
+Definition lead_pc (p : pc) : bool := match p with PStart | PY1 | PWait => false | _ => true end.
+Definition in_tbl_pc (p : pc) : bool := match p with PWork | PDelete | PFDelete => true | _ => false end.
+Definition open_pc (p : pc) : bool := match p with PStart | PY1 | PWait | PDone => false | _ => true end.
+Definition nodata_pc (p : pc) : bool :=
+  match p with PWork | PDelete | PHasF | PCopy | PFDelete | PFErr | PFClose => true | _ => false end.
+Definition noerr_pc (p : pc) : bool :=
+  match p with PWork | PDelete | PHasF | PCopy | PClose | PFDelete | PFErr => true | _ => false end.
+Definition foll_pc (p : pc) : bool := match p with PY1 | PWait | PDone => true | _ => false end.
+Definition noref_pc (p : pc) : bool := match p with PStart | PWork | PDone => true | _ => false end.
+Definition post_pc (p : pc) : bool := match p with PDelete | PHasF | PCopy | PClose => true | _ => false end.
+Definition ferr_pc (p : pc) : bool := match p with PFDelete | PFErr | PFClose => true | _ => false end.
+Definition data_pc (p : pc) : bool := match p with PClose | PDone => true | _ => false end.
+Definition run_pc (p : pc) : bool := match p with PStart | PY1 | PWait | PWork => true | _ => false end.
 
 Record Inv (s : state) : Prop := {
   c_absent : forall i, exists_b i = false -> act s i = actor0;
   c_tbl : forall k j, tbl s k = Some j ->
-            refof s j = Some j /\ in_tbl_pc (pcof s j) = true /\ rkey (rq j) = k;
-  c_leader : forall i, refof s i = Some i -> elig (rq i) = true /\ leader_ok s i;
-  c_foll : forall i j, refof s i = Some j -> j <> i ->
-            refof s j = Some j /\ rkey (rq i) = rkey (rq j) /\ elig (rq i) = true /\ foll_pc (pcof s i) = true;
-  c_noref : forall i, refof s i = None -> noref_pc (pcof s i) = true;
-  c_pristine : forall i, refof s i <> Some i -> ent s i = entry0;
-  c_post : forall i, post_pc (pcof s i) = true ->
-            a_out (act s i) = Some (OWrote (a_kind (act s i)) (a_res (act s i)) None);
+      a_ref (act s j) = Some j /\ in_tbl_pc (a_pc (act s j)) = true /\ rkey (rq j) = k;
+  c_lead : forall i, a_ref (act s i) = Some i -> elig (rq i) = true /\ lead_pc (a_pc (act s i)) = true;
+  c_lead_tbl : forall i, a_ref (act s i) = Some i -> in_tbl_pc (a_pc (act s i)) = true ->
+      tbl s (rkey (rq i)) = Some i;
+  c_lead_open : forall i, a_ref (act s i) = Some i -> open_pc (a_pc (act s i)) = true ->
+      e_done (ent s i) = false;
+  c_lead_nodata : forall i, a_ref (act s i) = Some i -> nodata_pc (a_pc (act s i)) = true ->
+      e_data (ent s i) = None;
+  c_lead_noerr : forall i, a_ref (act s i) = Some i -> noerr_pc (a_pc (act s i)) = true ->
+      e_err (ent s i) = None;
+  c_lead_done : forall i, a_ref (act s i) = Some i -> a_pc (act s i) = PDone -> e_done (ent s i) = true;
+  c_foll : forall i j, a_ref (act s i) = Some j -> j <> i ->
+      a_ref (act s j) = Some j /\ rkey (rq i) = rkey (rq j) /\ elig (rq i) = true /\
+      foll_pc (a_pc (act s i)) = true;
+  c_noref : forall i, a_ref (act s i) = None -> noref_pc (a_pc (act s i)) = true;
+  c_pristine : forall i, a_ref (act s i) <> Some i -> ent s i = entry0;
+  c_post : forall i, post_pc (a_pc (act s i)) = true ->
+      a_out (act s i) = Some (OWrote (a_kind (act s i)) (a_res (act s i)) None);
   c_data : forall j k d, e_data (ent s j) = Some (k, d) ->
-            refof s j = Some j /\ (pcof s j = PClose \/ pcof s j = PDone) /\
-            a_out (act s j) = Some (OWrote k d None) /\ k <> KCan;
-  c_hasf : forall i, pcof s i = PCopy -> a_hasf (act s i) = true -> a_kind (act s i) <> KCan;
+      a_ref (act s j) = Some j /\ data_pc (a_pc (act s j)) = true /\
+      a_out (act s j) = Some (OWrote k d None) /\ k <> KCan;
+  c_hasf : forall i, a_pc (act s i) = PCopy -> a_hasf (act s i) = true -> a_kind (act s i) <> KCan;
   c_err : forall j e, e_err (ent s j) = Some e -> e = EUp j /\ a_ans (act s j) = Some AErrUp;
-  c_perr : forall i, ferr_pc (pcof s i) = true ->
-            (a_perr (act s i) = EUp i /\ a_ans (act s i) = Some AErrUp) \/
-            (a_perr (act s i) = ECtx i /\ a_cancel (act s i) = true);
-  c_out : forall i o, a_out (act s i) = Some o -> out_ok s i o;
-  c_done : forall i, pcof s i = PDone -> a_out (act s i) <> None;
-  c_running : forall i, a_out (act s i) = None ->
-            match pcof s i with PStart | PY1 | PWait | PWork => True | _ => False end;
-  c_nout : forall i, match pcof s i with PStart | PY1 | PWait | PWork => a_out (act s i) = None | _ => True end;
-  c_start : forall i, pcof s i = PStart -> refof s i = None
+  c_perr : forall i, ferr_pc (a_pc (act s i)) = true ->
+      (a_perr (act s i) = EUp i /\ a_ans (act s i) = Some AErrUp) \/
+      (a_perr (act s i) = ECtx i /\ a_cancel (act s i) = true);
+  c_out_panic : forall i, a_out (act s i) <> Some OPanic;
+  c_out_own : forall i k d, a_out (act s i) = Some (OWrote k d None) ->
+      d = body (rq i) k /\ (k = KCan -> a_cancel (act s i) = true) /\
+      a_ans (act s i) = Some (ans_of_kind k);
+  c_out_sh : forall i k d j, a_out (act s i) = Some (OWrote k d (Some j)) ->
+      j <> i /\ a_ref (act s i) = Some j /\ e_data (ent s j) = Some (k, d) /\ a_pc (act s i) = PDone;
+  c_out_ctx : forall i a, a_out (act s i) = Some (OErr (ECtx a)) -> a = i /\ a_cancel (act s i) = true;
+  c_out_up : forall i a, a_out (act s i) = Some (OErr (EUp a)) ->
+      (a = i /\ a_ans (act s i) = Some AErrUp) \/
+      (a <> i /\ a_ref (act s i) = Some a /\ e_err (ent s a) = Some (EUp a) /\ a_pc (act s i) = PDone);
+  c_run : forall i, run_pc (a_pc (act s i)) = true -> a_out (act s i) = None;
+  c_nrun : forall i, run_pc (a_pc (act s i)) = false -> a_out (act s i) <> None;
+  c_start : forall i, a_pc (act s i) = PStart -> a_ref (act s i) = None
 }.
 
 Lemma inv_init : Inv init.
 Proof.
-  constructor; unfold pcof, refof; cbn; intros; try discriminate; try tauto; auto.
+  constructor; cbn; intros; try discriminate; try tauto; auto.
 Qed.
+
+End Inv.
 
 (* ---- automation ---- *)
 Ltac simp :=
@@ -103,7 +97,6 @@ Ltac upd1 :=
     unfold updN in H at 1; destruct (N.eqb_spec j i); [subst|]
   end.
 
-
 Ltac learn t :=
   let T := type of t in
   lazymatch goal with
@@ -111,39 +104,40 @@ Ltac learn t :=
   | _ => pose proof t
   end.
 
-Ltac fwd HI :=
-  repeat match goal with
-  | H : tbl _ ?k = Some ?j |- _ => learn (c_tbl _ HI k j H)
-  | H : e_data (ent _ ?j) = Some (?k, ?d) |- _ => learn (c_data _ HI j k d H)
-  | H : e_err (ent _ ?j) = Some ?e |- _ => learn (c_err _ HI j e H)
-  | H : a_out (act _ ?i) = Some ?o |- _ => learn (c_out _ HI i o H)
-  | H : a_ref (act _ ?i) = Some ?i |- _ => learn (c_leader _ HI i H)
-  | H : a_ref (act _ ?i) = Some ?j, N : ?j <> ?i |- _ => learn (c_foll _ HI i j H N)
-  | H : a_ref (act _ ?i) = None |- _ => learn (c_noref _ HI i H)
-  | x : nat |- _ => learn (c_absent _ HI x)
-  | x : nat |- _ => learn (c_pristine _ HI x)
-  | x : nat |- _ => learn (c_post _ HI x)
-  | x : nat |- _ => learn (c_hasf _ HI x)
-  | x : nat |- _ => learn (c_perr _ HI x)
-  | x : nat |- _ => learn (c_done _ HI x)
-  | x : nat |- _ => learn (c_running _ HI x)
-  | x : nat |- _ => learn (c_nout _ HI x)
-  | x : nat |- _ => learn (c_start _ HI x)
-  end.
-
-
+(* facts triggered by equations in the context *)
 Ltac fwd_light HI :=
   repeat match goal with
-  | H : tbl _ ?k = Some ?j |- _ => learn (c_tbl _ HI k j H)
-  | H : e_data (ent _ ?j) = Some (?k, ?d) |- _ => learn (c_data _ HI j k d H)
-  | H : e_err (ent _ ?j) = Some ?e |- _ => learn (c_err _ HI j e H)
-  | H : a_out (act _ ?i) = Some ?o |- _ => learn (c_out _ HI i o H)
-  | H : a_ref (act _ ?i) = Some ?i |- _ => learn (c_leader _ HI i H)
-  | H : a_ref (act _ ?i) = Some ?j, N : ?j <> ?i |- _ => learn (c_foll _ HI i j H N)
-  | H : a_ref (act _ ?i) = None |- _ => learn (c_noref _ HI i H)
+  | H : tbl _ ?k = Some ?j |- _ => learn (c_tbl _ _ HI k j H)
+  | H : e_data (ent _ ?j) = Some (?k, ?d) |- _ => learn (c_data _ _ HI j k d H)
+  | H : e_err (ent _ ?j) = Some ?e |- _ => learn (c_err _ _ HI j e H)
+  | H : a_out (act _ ?i) = Some (OWrote ?k ?d None) |- _ => learn (c_out_own _ _ HI i k d H)
+  | H : a_out (act _ ?i) = Some (OWrote ?k ?d (Some ?j)) |- _ => learn (c_out_sh _ _ HI i k d j H)
+  | H : a_out (act _ ?i) = Some (OErr (ECtx ?a)) |- _ => learn (c_out_ctx _ _ HI i a H)
+  | H : a_out (act _ ?i) = Some (OErr (EUp ?a)) |- _ => learn (c_out_up _ _ HI i a H)
+  | H : a_ref (act _ ?i) = Some ?i |- _ => learn (c_lead _ _ HI i H)
+  | H : a_ref (act _ ?i) = Some ?j, N : ?j <> ?i |- _ => learn (c_foll _ _ HI i j H N)
+  | H : a_ref (act _ ?i) = None |- _ => learn (c_noref _ _ HI i H)
+  | H : Inb.exists_b _ ?i = false |- _ => learn (c_absent _ _ HI i H)
   end.
 
-Ltac unf := unfold leader_ok, out_ok, pcof, refof in *.
+(* every per-actor clause at every actor in sight *)
+Ltac fwd HI :=
+  fwd_light HI;
+  repeat match goal with
+  | x : nat |- _ => learn (c_lead_tbl _ _ HI x)
+  | x : nat |- _ => learn (c_lead_open _ _ HI x)
+  | x : nat |- _ => learn (c_lead_nodata _ _ HI x)
+  | x : nat |- _ => learn (c_lead_noerr _ _ HI x)
+  | x : nat |- _ => learn (c_lead_done _ _ HI x)
+  | x : nat |- _ => learn (c_pristine _ _ HI x)
+  | x : nat |- _ => learn (c_post _ _ HI x)
+  | x : nat |- _ => learn (c_hasf _ _ HI x)
+  | x : nat |- _ => learn (c_perr _ _ HI x)
+  | x : nat |- _ => learn (c_out_panic _ _ HI x)
+  | x : nat |- _ => learn (c_run _ _ HI x)
+  | x : nat |- _ => learn (c_nrun _ _ HI x)
+  | x : nat |- _ => learn (c_start _ _ HI x)
+  end.
 
 Ltac rw_pc :=
   repeat match goal with
@@ -163,159 +157,45 @@ Ltac rw_ent :=
   | H : act ?s ?i = actor0 |- _ => rewrite H in *
   end; cbn [e_done e_data e_err e_fc entry0 a_pc a_ref a_cancel a_out a_ans actor0] in *.
 
-Ltac fin0 :=
-  unf; inj; rw_pc; cbn [in_tbl_pc foll_pc noref_pc post_pc ferr_pc] in *;
-  intuition (subst; try congruence; try discriminate).
+Ltac classes :=
+  cbn [lead_pc in_tbl_pc open_pc nodata_pc noerr_pc foll_pc noref_pc post_pc ferr_pc data_pc run_pc] in *.
 
-Ltac fin :=
-  unf; inj; rw_pc; cbn [in_tbl_pc foll_pc noref_pc post_pc ferr_pc] in *;
-  try solve [intuition (subst; try congruence; try discriminate)];
-  rw_ent;
-  intuition (subst; rw_pc; rw_ent; cbn [in_tbl_pc foll_pc noref_pc post_pc ferr_pc] in *; try congruence; try discriminate).
-
-Ltac case_pc :=
+Ltac prem :=
   repeat match goal with
-  | |- context [match a_pc (act ?s ?i) with _ => _ end] => destruct (a_pc (act s i)) eqn:?
-  | H : context [match a_pc (act ?s ?i) with _ => _ end] |- _ => destruct (a_pc (act s i)) eqn:?
+  | H : true = true -> _ |- _ => specialize (H eq_refl)
+  | H : false = true -> _ |- _ => clear H
+  | H : true = false -> _ |- _ => clear H
+  | H : ?x = ?x -> _ |- _ => specialize (H eq_refl)
+  | H : ?x <> ?x -> _ |- _ => clear H
+  | H : _ /\ _ |- _ => destruct H
+  | H : ?a = ?b, G : ?a = ?b -> _ |- _ => specialize (G H)
   end.
 
-Ltac case_out :=
-  repeat match goal with
-  | o : outcome |- _ => destruct o as [? ? [?|]|[?|?]|]
-  end.
+Ltac norm := inj; rw_pc; classes; prem; rw_ent; prem.
 
-Ltac open_inv := constructor; unf; intros; simp; repeat upd1; simp.
+Ltac fin := norm; solve [intuition (subst; norm; try congruence; try discriminate)].
+
+Ltac open_inv := constructor; intros; simp; repeat upd1; simp.
 
 Ltac solve_inv HI :=
   open_inv;
   try solve [fin];
   try solve [fwd_light HI; fin];
-  try solve [fwd HI; fin];
-  try solve [case_out; fwd HI; fin];
-  try solve [case_out; fwd HI; case_pc; fin].
+  try solve [fwd HI; fin].
 
 
 (* an actor at a leader-only program counter holds its own request *)
-Lemma own_ref s i j :
-  Inv s -> a_ref (act s i) = Some j ->
-  match a_pc (act s i) with PY1 | PWait | PDone => False | _ => True end -> j = i.
+Lemma own_ref reqs s i j :
+  Inv reqs s -> a_ref (act s i) = Some j -> foll_pc (a_pc (act s i)) = false -> j = i.
 Proof.
   intros HI Hr Hp. destruct (Nat.eq_dec j i) as [|N]; [assumption|exfalso].
-  pose proof (c_foll _ HI i j Hr N) as F. unfold pcof in F.
-  destruct (a_pc (act s i)); cbn in *; intuition discriminate.
+  pose proof (c_foll _ _ HI i j Hr N) as F. intuition congruence.
 Qed.
 
 Ltac own HI j i :=
   let E := fresh "E" in
   assert (E : j = i) by (eapply own_ref; [exact HI|eassumption|
-     match goal with H : a_pc _ = _ |- _ => rewrite H end; exact I]);
+     match goal with H : a_pc _ = _ |- _ => rewrite H end; reflexivity]);
   subst j.
 
-Ltac start HI Hs := inversion Hs; subst; clear Hs.
-
-Lemma inv_tau_start s i s' :
-  Inv s -> exists_b i = true -> a_pc (act s i) = PStart -> tau fixed reqs s i = Some s' -> Inv s'.
-Proof.
-  intros HI He Hpc Hs. unfold tau in Hs. rewrite Hpc in Hs.
-  destruct (elig (rq i)) eqn:Hel.
-  - destruct (tbl s (rkey (rq i))) as [j|] eqn:Ht; start HI Hs; solve_inv HI.
-  - start HI Hs; solve_inv HI.
-Qed.
-
-Lemma inv_tau_y1 s i s' :
-  Inv s -> exists_b i = true -> a_pc (act s i) = PY1 -> tau fixed reqs s i = Some s' -> Inv s'.
-Proof.
-  intros HI He Hpc Hs. unfold tau in Hs. rewrite Hpc in Hs.
-  destruct (a_ref (act s i)) as [j|] eqn:Hr; [|discriminate]. start HI Hs.
-  assert (N : j <> i).
-  { intro; subst. pose proof (c_leader _ HI i Hr) as [_ L]. unfold leader_ok, pcof in L. rewrite Hpc in L. exact L. }
-  pose proof (c_foll _ HI i j Hr N) as (Hj & _).
-  solve_inv HI.
-  all: idtac "Y1 REMAINING".
-  all: admit.
-  Show.
-Admitted.
-
-Lemma inv_tau_delete s i s' :
-  Inv s -> exists_b i = true -> a_pc (act s i) = PDelete -> tau fixed reqs s i = Some s' -> Inv s'.
-Proof.
-  intros HI He Hpc Hs. unfold tau in Hs. rewrite Hpc in Hs.
-  destruct (a_ref (act s i)) as [j|] eqn:Hr; [|discriminate]. own HI j i. start HI Hs.
-  solve_inv HI.
-  all: idtac "DELETE REMAINING".
-  all: admit.
-  Show.
-Admitted.
-
-Lemma inv_tau_hasf s i s' :
-  Inv s -> exists_b i = true -> a_pc (act s i) = PHasF -> tau fixed reqs s i = Some s' -> Inv s'.
-Proof.
-  intros HI He Hpc Hs. unfold tau in Hs. rewrite Hpc in Hs.
-  destruct (a_ref (act s i)) as [j|] eqn:Hr; [|discriminate]. own HI j i. start HI Hs.
-  solve_inv HI.
-  all: idtac "HASF REMAINING".
-  all: admit.
-  Show.
-Admitted.
-
-Lemma inv_tau_copy s i s' :
-  Inv s -> exists_b i = true -> a_pc (act s i) = PCopy -> tau fixed reqs s i = Some s' -> Inv s'.
-Proof.
-  intros HI He Hpc Hs. unfold tau in Hs. rewrite Hpc in Hs.
-  destruct (a_ref (act s i)) as [j|] eqn:Hr; [|discriminate]. own HI j i.
-  destruct (a_hasf (act s i)) eqn:Hh; start HI Hs.
-  - solve_inv HI.
-    all: idtac "COPY1 REMAINING".
-    all: admit.
-  - solve_inv HI.
-    all: idtac "COPY2 REMAINING".
-    all: admit.
-  Show.
-Admitted.
-
-Lemma inv_close s i s' :
-  Inv s -> exists_b i = true -> (a_pc (act s i) = PClose \/ a_pc (act s i) = PFClose) ->
-  a_ref (act s i) = Some i -> do_close s i i (act s i) = s' -> Inv s'.
-Proof.
-  intros HI He Hpc Hr Hs. unfold do_close in Hs.
-  pose proof (c_leader _ HI i Hr) as [_ L]. unfold leader_ok, pcof in L.
-  assert (Hd : e_done (ent s i) = false) by (destruct Hpc as [Hpc|Hpc]; rewrite Hpc in L; tauto).
-  rewrite Hd in Hs. subst s'.
-  destruct Hpc as [Hpc|Hpc].
-  - solve_inv HI.
-    all: idtac "CLOSE1 REMAINING".
-    all: admit.
-  - solve_inv HI.
-    all: idtac "CLOSE2 REMAINING".
-    all: admit.
-  Show.
-Admitted.
-
-Lemma inv_tau_fdelete s i s' :
-  Inv s -> exists_b i = true -> a_pc (act s i) = PFDelete -> tau fixed reqs s i = Some s' -> Inv s'.
-Proof.
-  intros HI He Hpc Hs. unfold tau in Hs. rewrite Hpc in Hs.
-  destruct (a_ref (act s i)) as [j|] eqn:Hr; [|discriminate]. own HI j i. start HI Hs.
-  solve_inv HI.
-  all: idtac "FDELETE REMAINING".
-  all: admit.
-  Show.
-Admitted.
-
-Lemma inv_tau_ferr s i s' :
-  Inv s -> exists_b i = true -> a_pc (act s i) = PFErr -> tau fixed reqs s i = Some s' -> Inv s'.
-Proof.
-  intros HI He Hpc Hs. unfold tau in Hs. rewrite Hpc in Hs.
-  destruct (a_ref (act s i)) as [j|] eqn:Hr; [|discriminate]. own HI j i.
-  cbn [fix_b fixed andb] in Hs.
-  destruct (a_cancel (act s i)) eqn:Hc; start HI Hs.
-  - solve_inv HI.
-    all: idtac "FERR1 REMAINING".
-    all: admit.
-  - solve_inv HI.
-    all: idtac "FERR2 REMAINING".
-    all: admit.
-  Show.
-Admitted.
-
-End Inv.
+Ltac start Hs := inversion Hs; subst; clear Hs.
